@@ -183,12 +183,19 @@ func checkSingle(w *World, rep *vh.Report, fl files, idx int, cs Case) {
 	msg := w.Materialize(cs.C, idx)
 	replay := map[string]any{"kind": "single", "case": cs, "variant": idx}
 	sus := suspectSingle(cs.C)
+	// the failing conjuncts as they appear in fingerprints: the window conjunct names the relation of the two bounds
+	failed := append([]string{}, cs.Failed...)
+	for i, f := range failed {
+		if f == "window" {
+			failed[i] = "window(" + windowShape(cs.C) + ")"
+		}
+	}
 	var err error
 	var v *ctfe.ValidatedLogConfig
 	if guarded(rep, sus, replay, func() { v, err = ctfe.ValidateLogConfig(proto.Clone(msg).(*configpb.LogConfig)) }) {
 		return
 	}
-	verdict(rep, "ValidateLogConfig", "direct", cs.Valid, err, cs.Failed, replay)
+	verdict(rep, "ValidateLogConfig", "direct", cs.Valid, err, failed, replay)
 	if err == nil && cs.Valid {
 		// the validated structure repeats what was configured
 		if (v.PubKey != nil) != (cs.C.PubKey == "ecdsa" || cs.C.PubKey == "rsa") || (v.FrozenSTH != nil) != (cs.C.FrozenSth == "okSigned") ||
@@ -213,7 +220,7 @@ func checkSingle(w *World, rep *vh.Report, fl files, idx int, cs Case) {
 			if guarded(rep, sus, replay, func() { av, err = ctfe.ValidateLogConfig(alt) }) {
 				continue
 			}
-			verdict(rep, "ValidateLogConfig", "direct", cs.Valid, err, cs.Failed, replay)
+			verdict(rep, "ValidateLogConfig", "direct", cs.Valid, err, failed, replay)
 			if err == nil && cs.Valid {
 				validatedWindow(rep, cs, av, sp, replay)
 			}
@@ -221,7 +228,7 @@ func checkSingle(w *World, rep *vh.Report, fl files, idx int, cs Case) {
 	}
 	one := []*configpb.LogConfig{proto.Clone(msg).(*configpb.LogConfig)}
 	guarded(rep, sus, replay, func() { err = ctfe.ValidateLogConfigs(one) })
-	verdict(rep, "ValidateLogConfigs", "direct", cs.ValidAsSet, err, cs.Failed, replay)
+	verdict(rep, "ValidateLogConfigs", "direct", cs.ValidAsSet, err, failed, replay)
 	wrapped := proto.Clone(msg).(*configpb.LogConfig)
 	wrapped.LogBackendName = "default"
 	multi := &configpb.LogMultiConfig{
@@ -229,7 +236,7 @@ func checkSingle(w *World, rep *vh.Report, fl files, idx int, cs Case) {
 		LogConfigs: &configpb.LogConfigSet{Config: []*configpb.LogConfig{wrapped}},
 	}
 	guarded(rep, sus, replay, func() { _, err = ctfe.ValidateLogMultiConfig(proto.Clone(multi).(*configpb.LogMultiConfig)) })
-	verdict(rep, "ValidateLogMultiConfig", "direct", cs.ValidAsMulti, err, cs.Failed, replay)
+	verdict(rep, "ValidateLogMultiConfig", "direct", cs.ValidAsMulti, err, failed, replay)
 	// through the loaders, text and binary
 	for _, form := range forms {
 		p := fl.write("set", &configpb.LogConfigSet{Config: []*configpb.LogConfig{msg}}, form)
@@ -242,9 +249,9 @@ func checkSingle(w *World, rep *vh.Report, fl files, idx int, cs Case) {
 			continue
 		}
 		guarded(rep, sus, replay, func() { _, err = ctfe.ValidateLogConfig(loaded[0]) })
-		verdict(rep, "ValidateLogConfig", form, cs.Valid, err, cs.Failed, replay)
+		verdict(rep, "ValidateLogConfig", form, cs.Valid, err, failed, replay)
 		guarded(rep, sus, replay, func() { err = ctfe.ValidateLogConfigs(loaded) })
-		verdict(rep, "ValidateLogConfigs", form, cs.ValidAsSet, err, cs.Failed, replay)
+		verdict(rep, "ValidateLogConfigs", form, cs.ValidAsSet, err, failed, replay)
 		p = fl.write("multi", multi, form)
 		var lm *configpb.LogMultiConfig
 		if guarded(rep, sus, replay, func() { lm, err = ctfe.MultiLogConfigFromFile(p) }) {
@@ -255,7 +262,7 @@ func checkSingle(w *World, rep *vh.Report, fl files, idx int, cs Case) {
 			continue
 		}
 		guarded(rep, sus, replay, func() { _, err = ctfe.ValidateLogMultiConfig(lm) })
-		verdict(rep, "ValidateLogMultiConfig", form, cs.ValidAsMulti, err, cs.Failed, replay)
+		verdict(rep, "ValidateLogMultiConfig", form, cs.ValidAsMulti, err, failed, replay)
 	}
 	key := "single:" + strings.Join(cs.Failed, "+")
 	if cs.Valid {
@@ -273,7 +280,20 @@ func windowShape(c Cfg) string {
 	case !s.P && !l.P:
 		return "none"
 	case (s.P && !s.WellFormed()) || (l.P && !l.WellFormed()):
-		return "malformed"
+		bad := func(name string, t Ts) string {
+			switch {
+			case !t.P || t.WellFormed():
+				return ""
+			case t.Sec < -1:
+				return name + ".sec-low"
+			case t.Sec > 2:
+				return name + ".sec-high"
+			case t.Nanos < 0:
+				return name + ".nanos-negative"
+			}
+			return name + ".nanos-high"
+		}
+		return "malformed:" + strings.Trim(bad("start", s)+","+bad("limit", l), ",")
 	case !l.P:
 		return "start-only"
 	case !s.P:
@@ -660,7 +680,9 @@ func TestReplay(t *testing.T) {
 	}
 	rep := vh.NewReport("c15-replay", "every case of MCLogConfig.tla (records of field states of LogConfig / LogConfigSet / LogMultiConfig with the model's "+
 		"verdict) materialized as configpb messages and given to ValidateLogConfig / ValidateLogConfigs / ValidateLogMultiConfig directly and through "+
-		"LogConfigFromFile / MultiLogConfigFromFile in text and binary form (accept/reject compared, panic = violation); every accepted configuration built "+
+		"LogConfigFromFile / MultiLogConfigFromFile in text and binary form (accept/reject compared, panic = violation); NotAfter bounds are rank pairs "+
+		"(seconds, nanos) read in four concrete spellings (adjacent values, ends of the valid range, around the half second, around the int64-nanosecond "+
+		"horizon), delays in five scales up to the ends of int32; an accepted configuration must carry its bounds to the nanosecond; every accepted configuration built "+
 		"with SetUpInstance on a fake Trillian log and replayed against a behaviour of the instance state machine (endpoint set, get-sth after every "+
 		"backend growth / source STH arrival); non-trivial = distinct set of failing conjuncts, or distinct (instance kind, key kind, behaviour shape)")
 	dir := t.TempDir()
